@@ -173,17 +173,17 @@ theorem key0_nonrec {v : Val} (h : isRec v = false) : key0 v = pyStr v := by
 /-- the values of a list of keyed entries -/
 def vals (l : List KE) : List Val := l.map (fun e => e.2.2)
 
-theorem mkEntries_vals : ∀ (ys : List Val) (i : Nat), vals (mkEntries i (ys.map key0) ys) = ys
+theorem mkEntries_vals0 : ∀ (ys : List Val) (i : Nat), vals (mkEntries i (ys.map key0) ys) = ys
   | [], _ => rfl
   | y :: ys, i => by
-    have := mkEntries_vals ys (i + 1)
+    have := mkEntries_vals0 ys (i + 1)
     simp only [vals] at this
     simp [mkEntries, vals, this]
 
-theorem mkEntries_keys : ∀ (ys : List Val) (i : Nat),
+theorem mkEntries_keys0 : ∀ (ys : List Val) (i : Nat),
     (mkEntries i (ys.map key0) ys).map (fun e => e.1) = ys.map key0
   | [], _ => rfl
-  | y :: ys, i => by simp [mkEntries, mkEntries_keys ys (i + 1)]
+  | y :: ys, i => by simp [mkEntries, mkEntries_keys0 ys (i + 1)]
 
 theorem mkEntries_key0 : ∀ (ys : List Val) (i : Nat), ∀ e ∈ mkEntries i (ys.map key0) ys,
     e.1 = key0 e.2.2 ∧ e.2.2 ∈ ys
@@ -432,7 +432,7 @@ theorem sub_keyed_exact (cfg : Cfg) (h : NoOpts cfg) (hd : cfg.direct = false) (
         (mkEntries 0 (xs.map key0) xs) (mkEntries 0 (ys.map key0) ys) 0 hxs hiv ho
       refine ⟨r, ?_, ?_⟩
       · simp [sub, hd, excluded_noOpts h, keysOf_noOpts h, hr]
-      · rw [hiff (mkEntries_keys xs 0), mkEntries_vals]
+      · rw [hiff (mkEntries_keys0 xs 0), mkEntries_vals0]
         simp [eqv, ListSpec]
     | _ => simp [tyOf] at ht
   | .dict c kvs, w, hv, hw, hiv, hiw, ht, _ => by
